@@ -8,6 +8,7 @@ default-suffix length, first parameter plain/self/cls, optional keyword-only tai
 modulo the selected node's own default/value; the input file is unchanged.
 """
 import ast
+from collections import OrderedDict
 import itertools
 import os
 import shutil
@@ -30,6 +31,8 @@ def fin(a: frozenset, z: list = None):
 
 
 t = ("p", "q")
+u = (1, True, "1", 0, False)
+w = ["a", "b", "a"]
 '''
 # the same properties in a module where every selected name is *shadowed* by an earlier node of another kind: a module-level annotated
 # variable named like the class attribute, a class attribute named like the parameter of a method declared below it
@@ -57,6 +60,8 @@ def fin(a: frozenset, z: list = None):
 
 
 t = ("p", "q")
+u = (1, True, "1", 0, False)
+w = ["a", "b", "a"]
 '''
 INPUTS_SHADOW = [
     ("In.meth.p", "method_param_default", "p", "range"),
@@ -73,6 +78,8 @@ PNAMES = ["a", "b", "c", "d"]
 PTYPES = {"a": "int", "b": "str", "c": "str", "d": "bool", "kw": "int"}
 PDEFAULTS = {"a": "1", "b": "'b'", "c": "'c'", "d": "False", "kw": "0"}
 WRAPS = [None, "Optional[{output_param}]"]
+# --input-eval: module-level collections and the Literal their evaluation must give (members that compare equal across types, a repeated member)
+EVAL_INPUTS = OrderedDict((("t", "Literal['p', 'q']"), ("u", "Literal[1, True, '1', 0, False]"), ("w", "Literal['a', 'b', 'a']")))
 
 
 def output_module(k, n_defaults, lead, kwtail, decoy=False):
@@ -123,7 +130,8 @@ def cases(tier, seed):
                             # shadowed input module: the old inputs again (now preceded by same-named nodes) and the method parameters
                             for inp in INPUTS + INPUTS_SHADOW:
                                 yield dict(out=dict(k=k, n_defaults=n_defaults, lead=lead, kwtail=kwtail, decoy=decoy), target=tpath, tkind=tkind, input=inp[0], wrap=None, eval=False, shadow=True)
-                        yield dict(out=dict(k=k, n_defaults=n_defaults, lead=lead, kwtail=kwtail, decoy=decoy), target=tpath, tkind=tkind, input="t", wrap=None, eval=True)
+                        for ev in EVAL_INPUTS:
+                            yield dict(out=dict(k=k, n_defaults=n_defaults, lead=lead, kwtail=kwtail, decoy=decoy), target=tpath, tkind=tkind, input=ev, wrap=None, eval=True)
 
 
 SENT = "__MASKED__"
@@ -237,7 +245,7 @@ def run(case):
             return dict(outcome="syntax-error", transitions=1, violations=viol)
         before = ast.parse(src)
         if case["eval"]:
-            new_name, ann = None, "Literal['p', 'q']"
+            new_name, ann = None, EVAL_INPUTS[case["input"]]
         else:
             new_name, ann = inp[2], inp[3]
             if case["wrap"]:
